@@ -25,6 +25,14 @@ func runC20(c *mon.Ctx) {
 		if i%3 == 0 {
 			c20NoMutationReporters(c, r.Fork(23))
 		}
+		if i%3 == 1 {
+			// a histogram keeps the bounds it was given also as seen behind the
+			// Prometheus reporter (value and duration specifications, samples on the
+			// bounds): C17's histories, histogram evidence only
+			promKinds = map[string]bool{"histogram": true}
+			c17Values(c, r.Fork(24))
+			promKinds = nil
+		}
 		c20Isolation(c, r.Fork(3))
 		// fresh roots on which several goroutines make the first use of colliding
 		// bucket sets at the same moment (all of them miss the empty cache together)
